@@ -1,9 +1,9 @@
 SPECIFICATION Spec
 CONSTANT Cfg <- MCCfg5
 CONSTANT Limits = {1, 2, 3}
-CONSTANT MinEdges = 4
-CONSTANT MaxEdges = 4
-CONSTANT Sample = TRUE
+CONSTANT MinEdges = 7
+CONSTANT MaxEdges = 10
+CONSTANT Sample = FALSE
 CONSTANT LegalOnly = FALSE
 CONSTRAINT Bounded
 VIEW View
